@@ -25,6 +25,10 @@ def run(tier, seed, res, lean):
             'c15-filter-container-correspondence',
             f'the container the real Filter builds and CM.Model.FilterBag.filterConnect differ: {str({k: v for k, v in fbad[0].items() if k != "desc"})[:300]}',
             {'suite': 'S-FACTORY/filter', 'theorems': [t for t in lean['theorems'] if 'node_' in t], **fbad[0]}, found_input=False))
+    # CheckIds is hash-transparent also for the dataset-wide layers stacked on top of it
+    from .. import suite_neutral
+    for p in [p for i in range(12 if tier == 'quick' else 100) for p in suite_neutral.run_checkids_neutral(seed * 43 + i)][:3]:
+        res.violations.append(Violation('c15-checkids-not-transparent', p['msg'][:400], {'suite': 'S-NEUTRAL/checkids', **p}))
     if bad:
         res.violations.append(Violation(
             'c15-checkids-container-correspondence',
